@@ -37,7 +37,13 @@ def gen_query(rnd, tname):
         if rnd.random() < 0.3:
             sel.append(item(["bin", "mult", col("b"), num(2)], "b"))
     wh = rnd.choice([TRUE, ["cmp", "ge", col("a"), num(2)], ["cmp", "eq", col("s"), ["str", "x"]],
-                     ["and", ["cmp", "lt", col("a"), num(4)], ["cmp", "ne", col("b"), num(0)]]])
+                     ["and", ["cmp", "lt", col("a"), num(4)], ["cmp", "ne", col("b"), num(0)]],
+                     # query options must reach the inner executions too: constants (modelled) and variables
+                     # (out of model: compared on the implementation by the metamorphic runs)
+                     ["cmp", "ge", col("a"), ["func", "", "constant", [["str", "min"]]]],
+                     ["cmp", "ge", col("a"), ["func", "", "getvar", [["str", "min"]]]]])
+    if rnd.random() < 0.15:
+        sel = sel + [item(["func", "", "constant", [["str", "tag"]]], "tg")] if sel != [["star"]] else sel
     return select(sel, table(tname), wh=wh, distinct=rnd.random() < 0.1)
 
 
@@ -45,7 +51,8 @@ def gen_case(rnd):
     depth = rnd.choice([2, 2, 3])
     data = gen_nested(rnd, depth)
     q = gen_query(rnd, "m")
-    c = mk_case({"m": data}, q, mode="seq", tag="depth%d" % depth)
+    c = mk_case({"m": data}, q, mode="seq", tag="depth%d" % depth, consts={"min": rnd.choice([1, 2, 3]), "tag": "T"},
+                vars={"min": rnd.choice([2, 3])})
     return c
 
 
@@ -89,9 +96,9 @@ def metamorphic(chk, results):
         arrays = flat_arrays(c["doc"]["m"])
         start = len(reqs)
         for arr in arrays:
-            reqs.append({"op": "query", "doc": enc_val({"m": arr}), "sql": c["sql"]})
+            reqs.append(dict(go_req(c), doc=enc_val({"m": arr})))
         mixsql = c["sql"].replace(" FROM m", " FROM `mix=>m`")
-        reqs.append({"op": "query", "doc": enc_val(c["doc"]), "sql": mixsql})
+        reqs.append(dict(go_req(c), sql=mixsql))
         meta.append((c, g, start, len(arrays)))
     if not reqs:
         return
